@@ -81,6 +81,11 @@ int ll_eh_match(uint8_t* thrown, uint8_t* clause) {
 #endif
   return 0;
 }
+/* memcpy/memmove/memset with a NON-constant length (ll2c keeps the builtins for constant lengths) */
+void ll_memmove_dyn(uint8_t* d, uint8_t* s, uint64_t n) {
+  if ((uintptr_t)d <= (uintptr_t)s) { for (uint64_t i = 0; i < n; i++) d[i] = s[i]; }
+  else { for (uint64_t i = n; i > 0; i--) d[i - 1] = s[i - 1]; } }
+void ll_memset_dyn(uint8_t* d, uint32_t c, uint64_t n) { for (uint64_t i = 0; i < n; i++) d[i] = (uint8_t)c; }
 /* libc */
 uint64_t ll_strlen(uint8_t* s) { uint64_t n = 0; while (s[n]) n++; return n; }
 uint32_t ll_tolower(uint32_t c) { return (c >= 'A' && c <= 'Z') ? c + 32 : c; }
@@ -105,3 +110,6 @@ void _ZNSt8__detail15_List_node_base11_M_transferEPS0_S1_(uint8_t* self, uint8_t
   if (self != last) {
     LNB(LNB(last)->prev)->next = self; LNB(LNB(first)->prev)->next = last; LNB(LNB(self)->prev)->next = first;
     uint8_t* tmp = LNB(self)->prev; LNB(self)->prev = LNB(last)->prev; LNB(last)->prev = LNB(first)->prev; LNB(first)->prev = tmp; } }
+#ifdef LL_EXTRA_STUBS
+#include LL_EXTRA_STUBS
+#endif
